@@ -252,3 +252,82 @@ func verifC04e() { // an optional consumer above a decorator whose dependency fa
 }
 
 func init() { verifEntries["verifC04e"] = verifC04e }
+
+// ---- profiles added after the fourth round of seeded changes ----------------------------------
+
+func verifC13e() { // error results declared as a concrete error type (zero value = non-nil error)
+	verifRunProfile(&vProfile{name: "C13e", clauses: append([]string{"C07.cause", "C07.nodeliver"}, vC13...),
+		maxScopes: 1, nRegs: 2, maxParams: 1, maxResults: 1, pForms: 1, rForms: 1, names: 1, decorators: 1, errConcrete: true, errPos: true,
+		faults: 2, nInvokes: 1, invParams: 1, distinct: true, noMissing: true})
+}
+
+func verifC07e() { // the same under the C07 clauses, two Invokes
+	verifRunProfile(&vProfile{name: "C07e", clauses: vC07,
+		maxScopes: 1, nRegs: 2, maxParams: 1, maxResults: 1, pForms: 1, rForms: 1, names: 1, decorators: 1, errConcrete: true,
+		faults: 2, nInvokes: 2, invParams: 1, distinct: true, noMissing: true})
+}
+
+func verifC17d() { // DryRun combined with RecoverFromPanics / DeferAcyclicVerification
+	verifC17run(&vProfile{name: "C17d", clauses: []string{"C17."},
+		maxScopes: 2, nRegs: 2, maxParams: 1, maxResults: 1, pForms: 1, rForms: 1, names: 1, decorators: 1, recoverOpt: 2, deferOpt: 2,
+		faults: 1, nInvokes: 1, invParams: 1})
+}
+
+func verifC09e() { // As combined with result objects: the same Out struct with different As lists
+	verifRunProfile(&vProfile{name: "C09e", clauses: vC09,
+		maxScopes: 2, nRegs: 2, maxParams: 0, maxResults: 1, pForms: 2, rForms: 2, names: 1, as: true, asObj: true,
+		faults: 1, nInvokes: 1, invParams: 1})
+}
+
+func verifC08c() { // optional dependencies provided by ancestors / exported from elsewhere
+	verifRunProfile(&vProfile{name: "C08c", clauses: append([]string{"C04.zero", "C04.opt"}, vC08...),
+		maxScopes: 3, nRegs: 1, maxParams: 0, maxResults: 1, pForms: 2, rForms: 1, names: 1, optional: true, export: true, objOnly: true,
+		faults: 1, nInvokes: 2, invParams: 1, lateScopes: true})
+}
+
+func verifC01h() { // exported and root constructors of one key (duplicates through Export are rejected)
+	verifRunProfile(&vProfile{name: "C01h", clauses: vC01,
+		maxScopes: 2, nRegs: 2, maxParams: 0, maxResults: 1, pForms: 1, rForms: 1, names: 2, export: true,
+		faults: 1, nInvokes: 2, invParams: 1, noMissing: true})
+}
+
+func verifC04f() { // nested parameter objects with missing and optional fields
+	verifRunProfile(&vProfile{name: "C04f", clauses: vC04,
+		maxScopes: 1, nRegs: 2, maxParams: 1, maxResults: 1, pForms: 3, rForms: 1, names: 1, optional: true,
+		faults: 1, nInvokes: 1, invParams: 1, distinct: true})
+}
+
+func verifC02g() { // a group decorator that has run, then another feeder of the group, then the group again
+	verifRunProfile(&vProfile{name: "C02g", clauses: append([]string{"C12.once"}, vC02...),
+		maxScopes: 1, nRegs: 2, maxParams: 0, maxResults: 1, pForms: 2, rForms: 2, names: 1, groups: true, decorators: 1, decor2: true,
+		regKinds: []int{vCtor, vDecor}, faults: 1, nInvokes: 2, invParams: 1, lateRegs: 1, objOnly: true})
+}
+
+func verifC12f() { // a group decorated at two levels and an exported consumer below
+	verifRunProfile(&vProfile{name: "C12f", clauses: append([]string{"C01.arg"}, vC12...),
+		maxScopes: 2, nRegs: 3, maxParams: 1, maxResults: 1, pForms: 2, rForms: 2, names: 1, groups: true, decorators: 2, export: true,
+		regKinds: []int{vDecor, vDecor, vCtor}, faults: 1, nInvokes: 1, invParams: 1, objOnly: true, scopesFirst: true})
+}
+
+func verifC11f() { // a rejected two-key decorator (group first) must not be found by a soft consumer
+	verifRunProfile(&vProfile{name: "C11f", clauses: append([]string{"C06.norun"}, vC11...),
+		maxScopes: 1, nRegs: 3, maxParams: 0, maxResults: 1, pForms: 2, rForms: 2, names: 1, groups: true, soft: true, decorators: 2, decor2: true,
+		regKinds: []int{vCtor, vDecor, vDecor}, faults: 1, nInvokes: 1, invParams: 1, objOnly: true})
+}
+
+func init() {
+	for n, f := range map[string]func(){
+		"verifC13e": verifC13e, "verifC07e": verifC07e, "verifC17d": verifC17d, "verifC09e": verifC09e, "verifC08c": verifC08c,
+		"verifC01h": verifC01h, "verifC04f": verifC04f, "verifC02g": verifC02g, "verifC12f": verifC12f, "verifC11f": verifC11f,
+	} {
+		verifEntries[n] = f
+	}
+}
+
+func verifC12g() { // decorator in the root, decorator and (exported) constructor in the child; extra dependencies / second keys / no input
+	verifRunProfile(&vProfile{name: "C12g", clauses: append([]string{"C01.arg"}, vC12...),
+		maxScopes: 2, nRegs: 3, maxParams: 1, maxResults: 1, pForms: 2, rForms: 2, names: 1, groups: true, decorators: 2, decor2: true, export: true,
+		regKinds: []int{vDecor, vDecor, vCtor}, regScopes: []int{0, 1, 1}, faults: 1, nInvokes: 1, invParams: 1, objOnly: true, scopesFirst: true})
+}
+
+func init() { verifEntries["verifC12g"] = verifC12g }
